@@ -51,7 +51,7 @@ def runs_are_sequential(vals) -> bool:
 
 
 @st.composite
-def reduce_cases(draw, tier="quick", funcs=FUNCS, nplans=3, allow_blockwise=True, max_n=24, engines=None, label_styles=None):
+def reduce_cases(draw, tier="quick", funcs=FUNCS, nplans=3, allow_blockwise=True, max_n=24, engines=None, label_styles=None, all_missing_ok=False):
     func = draw(st.sampled_from(funcs))
     if func in ("any", "all"):
         dt = "|b1"
@@ -67,7 +67,7 @@ def reduce_cases(draw, tier="quick", funcs=FUNCS, nplans=3, allow_blockwise=True
     batch = draw(st.sampled_from([[], [], [2], [3], [1]]))
     nb = int(np.prod(batch)) if batch else 1
     vals = gen.draw_values(draw, n * nb, dt, func)
-    lab = gen.draw_labels(draw, n, styles=label_styles)
+    lab = gen.draw_labels(draw, n, styles=label_styles, allow_all_missing=all_missing_ok)
     lab["spec"]["sh"] = by_shape
     shape = batch + by_shape
     case = {"arr": {"dt": dt, "sh": shape, "v": vals}, "by": lab["spec"], "func": func}
@@ -133,7 +133,7 @@ def reduce_cases(draw, tier="quick", funcs=FUNCS, nplans=3, allow_blockwise=True
 
 
 def strategy(tier):
-    return reduce_cases(tier)
+    return reduce_cases(tier, all_missing_ok=True)
 
 
 def block_structure(case):
